@@ -739,8 +739,11 @@ class CylindricalComponentsDuctHetAverageBlockCollection(
             nvtBlock, nvBlock = getBlockNuclideTemperatureAvgTerms(
                 newBlock, self.allNuclidesInProblem
             )
-            nvt += nvtBlock * wt
-            nv += nvBlock * wt
+            # the stripped copy has no parent, so its volumes are not reduced by the symmetry factor
+            # of the block (e.g. the central block of a third core); reduce them like the weight is
+            symmetryFactor = block.getSymmetryFactor()
+            nvt += nvtBlock * wt / symmetryFactor
+            nv += nvBlock * wt / symmetryFactor
         return nvt, nv
 
 
